@@ -219,6 +219,11 @@ struct Explorer {
         run.add(cn.histories);
         std::string f1 = g_dir + "/f1.bin", f2 = g_dir + "/f2.bin", raw = g_dir + "/raw.bin";
         { FILE *f = fopen(raw.c_str(), "wb"); fwrite(data.data(), sizeof(K), data.size(), f); fclose(f); }
+        // every other history finds longer files with other contents already at the output paths (a creating constructor replaces them)
+        if ((std::hash<std::string>()(hist) / 2 + data.size()) % 2 == 0) {
+            size_t junk = data.size() * sizeof(K) * 3 + 8192;
+            for (int w = 0; w < 2; ++w) { FILE *f = fopen((w ? f2 : f1).c_str(), "wb"); std::string block(junk, w ? char(0xCD) : char(0xAB)); fwrite(block.data(), 1, block.size(), f); fclose(f); }
+        }
         struct Obj { Index *ix; int file; const char *how; };
         std::vector<Obj> live;
         std::string bytes1, bytes2; Snapshot s1{}, s2{}; bool have1 = false, have2 = false;
@@ -241,6 +246,10 @@ struct Explorer {
             close_leaked_fds();
             if (!ok) break;
             for (auto &o : live) { run.add(cn.objects); if (!battery(*o.ix, data, queries, cs + " after=" + op, o.how)) { ok = false; break; } }
+            if (ok && prop != 17) for (auto &o : live) {   // the size a container reports for its file is the size of that file
+                size_t on_disk = file_bytes(o.file == 1 ? f1 : f2).size();
+                if (o.ix->file_size_in_bytes() != on_disk) { run.violation(cs, "after " + op + ": a " + std::string(o.how) + " reports a file of " + std::to_string(o.ix->file_size_in_bytes()) + " bytes, the file has " + std::to_string(on_disk)); ok = false; break; }
+            }
             if (!ok || prop == 17) continue;
             if (have1 && file_bytes(f1) != bytes1) { run.violation(cs, "after " + op + ": the file written by the range constructor changed"); ok = false; }
             if (have2 && file_bytes(f2) != bytes2) { run.violation(cs, "after " + op + ": the file written by the raw-file constructor changed"); ok = false; }
